@@ -753,6 +753,61 @@ def _index_width(model, rep):
     rep.units("functions checked for index-arithmetic width", n_fn)
 
 
+def _cyclic_enumeration(model, rep):
+    """``x[k]`` paired with ``x[(k + 1) % M]`` for k in range(A) lists the
+    sides of a closed polygon only if A and M are the same number: with A
+    smaller the closing side(s) are never generated (for quadrilateral
+    facets: the edge from the 4th back to the 1st vertex), with A larger
+    sides are listed twice.  The code states its belief about the cycle
+    length twice; the two must agree."""
+    R4 = "C11-R4"
+    n = 0
+    for fn in model.all_functions():
+        if not fn.path.startswith("skfem/mesh/"):
+            continue
+        # loop variables and their range extents
+        ranges = {}
+        for node in ast.walk(fn.node):
+            gens = []
+            if isinstance(node, (ast.ListComp, ast.GeneratorExp,
+                                 ast.SetComp, ast.DictComp)):
+                gens = [(g.target, g.iter) for g in node.generators]
+            elif isinstance(node, ast.For):
+                gens = [(node.target, node.iter)]
+            for tgt, it in gens:
+                if isinstance(tgt, ast.Name) and isinstance(it, ast.Call) \
+                        and src(it.func) == "range" and len(it.args) == 1:
+                    ranges[tgt.id] = it.args[0]
+        for node in ast.walk(fn.node):
+            if isinstance(node, ast.BinOp) and isinstance(node.op, ast.Mod) \
+                    and isinstance(node.left, ast.BinOp) and isinstance(
+                        node.left.op, (ast.Add, ast.Sub)):
+                names = [x.id for x in ast.walk(node.left)
+                         if isinstance(x, ast.Name) and x.id in ranges]
+                if len(names) != 1:
+                    continue
+                n += 1
+                v = names[0]
+                A, M = src(ranges[v]), src(node.right)
+                cons = f"{fn.short()}:cycle[{src(node)[:40]}]"
+                if A == M:
+                    rep.ok(R4, cons, f"range({A}) with wrap-around % {M}: "
+                           f"every side of the closed polygon is listed "
+                           f"once")
+                else:
+                    rep.fail(R4, fn.path, fn.short(), cons,
+                             f"'{v}' runs over range({A}) but wraps around "
+                             f"with % {M}: the two disagree on the number "
+                             f"of vertices of the polygon - with fewer "
+                             f"steps than vertices the closing side(s) are "
+                             f"never generated (quadrilateral facets lose "
+                             f"the edge from their last to their first "
+                             f"vertex)", node.lineno)
+    if n < 2:
+        raise AnalysisError(f"{n} cyclic pair enumerations found under "
+                            f"skfem/mesh, 2 confirmed by hand")
+
+
 def run(model: Model, rep, tier: str) -> None:
     rep.rule("C11-R1", "layout agreement in build_entities / build_inverse "
              "/ incidence matrices")
@@ -766,7 +821,8 @@ def run(model: Model, rep, tier: str) -> None:
     _index_width(model, rep)
     sentinel = _layout_rules(model, rep)
     staged(lambda: _incidence(model, rep),
-           lambda: _refdom_tables(model, rep))
+           lambda: _refdom_tables(model, rep),
+           lambda: _cyclic_enumeration(model, rep))
     _sentinel(model, rep, sentinel)
     _complements(model, rep)
     rep.require_min("C11-R1", 7)
@@ -776,6 +832,11 @@ def run(model: Model, rep, tier: str) -> None:
 
 _R = "skfem/refdom.py"
 MUTANTS = [
+    ("boundary edges of 3-D meshes enumerated over dim() facet vertices",
+     ("skfem/mesh/mesh_3d.py",
+      "                   for itr in range(self.facets.shape[0])])).T, "
+      "axis=1)", "                   for itr in range(self.dim())])).T, "
+      "axis=1)"), "C11-R4"),
     ("entities deduplicated through a 32-bit scalar key lo * nverts + hi",
      (FM, "        sorted_indexing, ixa, ixb = np.unique(sorted_indexing,\n"
       "                                              axis=1,\n"
